@@ -1,6 +1,6 @@
 (* C12 — shape of the generated cases and the two executable verdicts. No proofs. *)
 From VLib Require Import CaseLib.
-From C12 Require Import Model Lexer.
+From C12 Require Import Model Lexer Legacy.
 
 Fixpoint ast_eqb (a b : ast) : bool :=
   match a, b with
@@ -47,6 +47,14 @@ Definition not_only_at_root (t : ast) : bool :=
 
 Definition natoms := 6.
 
+(* stage 3: the AST of the real legacy parser with its tokens in the leaves *)
+Inductive itree :=
+| ILeaf (t : ltoken)
+| INot (a : itree)
+| IAnd (l r : itree)
+| IOr (l r : itree)
+| INAnd (l r : itree).
+
 Inductive case :=
 (* expression e rendered by the harness as token list ts (full = every composite parenthesised,
    otherwise minimal) and as text; impl = AST returned by the real parser *)
@@ -79,7 +87,17 @@ Inductive case :=
    (None = error or another node). low = unicode.ToLower of the runes of this case (oracle) *)
 | CRange (qr qa qb : bytes) (cls low : list (N * N)) (cfg : bool)
          (impl_r : option (term * term)) (impl_a impl_b : option (list term))
-| CRound (expected : list ltok) (input : bytes) (cls : list (N * N)) (impl_toks : list ltok).
+| CRound (expected : list ltok) (input : bytes) (cls : list (N * N)) (impl_toks : list ltok)
+(* stage 3: raw query bytes fed to the REAL legacy ParseQuery with conf.CaseSensitive = cfg under a
+   mapping (as CLex); impl = the returned AST with its Literal / Range tokens, or Err.
+   cls / low = Unicode classes and unicode.ToLower of the runes of this input (oracle instance).
+   oe = the expression the generator wrote (None for hostile strings), atoms = the generator's
+   reading of the returned leaves (token -> atom number) *)
+| CLegacy (input : bytes) (cls low : list (N * N)) (cfg nilmap : bool)
+          (user builtin : list (bytes * N)) (impl : res itree)
+          (oe : option expr) (atoms : list (ltoken * nat))
+(* raw bytes fed to the REAL ParseAggregationFilter: impl = Ok None for (nil, nil) *)
+| CAgg (input : bytes) (cls low : list (N * N)) (cfg : bool) (impl : res (option ltoken)).
 
 Definition T := mkTok.
 
@@ -162,6 +180,66 @@ Definition is_single (t : term) (l : option (list term)) : bool :=
 Definition has_single (l : option (list term)) : bool :=
   match l with Some [_] => true | _ => false end.
 
+Definition ltoken_eqb (a b : ltoken) : bool :=
+  match a, b with
+  | LLit f1 t1, LLit f2 t2 => bytes_eqb f1 f2 && list_eqb term_eqb t1 t2
+  | LRng f1 a1 b1 i1 j1, LRng f2 a2 b2 i2 j2 =>
+      bytes_eqb f1 f2 && term_eqb a1 a2 && term_eqb b1 b2 && Bool.eqb i1 i2 && Bool.eqb j1 j2
+  | _, _ => false
+  end.
+
+(* the model's tree (leaves = indices into its leaf table) against the real tree *)
+Fixpoint tree_agrees (lv : list ltoken) (a : ast) (i : itree) : bool :=
+  match a, i with
+  | Leaf n, ILeaf t => match nth_error lv n with Some t' => ltoken_eqb t' t | None => false end
+  | NotN x, INot y => tree_agrees lv x y
+  | AndN x1 x2, IAnd y1 y2 => tree_agrees lv x1 y1 && tree_agrees lv x2 y2
+  | OrN x1 x2, IOr y1 y2 => tree_agrees lv x1 y1 && tree_agrees lv x2 y2
+  | NAndN x1 x2, INAnd y1 y2 => tree_agrees lv x1 y1 && tree_agrees lv x2 y2
+  | _, _ => false
+  end.
+
+Definition legacy_case (cls low : list (N * N)) (cfg nilmap : bool) (user builtin : list (bytes * N))
+           (input : bytes) : R (ast * list ltoken) :=
+  legacy_parse (cls_bit cls 0) (cls_bit cls 1) (cls_bit cls 3) (low_fun low) cfg
+               (mk_ftype nilmap user builtin) input.
+Definition agg_case (cls low : list (N * N)) (cfg : bool) (input : bytes) : R (option ltoken) :=
+  legacy_agg (cls_bit cls 0) (cls_bit cls 1) (cls_bit cls 3) (low_fun low) cfg input.
+
+Fixpoint lookupT (k : ltoken) (l : list (ltoken * nat)) : option nat :=
+  match l with
+  | [] => None
+  | (a, b) :: r => if ltoken_eqb a k then Some b else lookupT k r
+  end.
+(* the real tree read with the generator's atom numbers *)
+Fixpoint itree_ast (atoms : list (ltoken * nat)) (i : itree) : option ast :=
+  match i with
+  | ILeaf t => option_map Leaf (lookupT t atoms)
+  | INot a => option_map NotN (itree_ast atoms a)
+  | IAnd l r => match itree_ast atoms l, itree_ast atoms r with
+                | Some x, Some y => Some (AndN x y) | _, _ => None end
+  | IOr l r => match itree_ast atoms l, itree_ast atoms r with
+               | Some x, Some y => Some (OrN x y) | _, _ => None end
+  | INAnd l r => match itree_ast atoms l, itree_ast atoms r with
+                 | Some x, Some y => Some (NAndN x y) | _, _ => None end
+  end.
+Fixpoint ishape (i : itree) : ast :=
+  match i with
+  | ILeaf _ => Leaf 0
+  | INot a => NotN (ishape a)
+  | IAnd l r => AndN (ishape l) (ishape r)
+  | IOr l r => OrN (ishape l) (ishape r)
+  | INAnd l r => NAndN (ishape l) (ishape r)
+  end.
+(* a Literal always has at least one term *)
+Fixpoint ileaves_wf (i : itree) : bool :=
+  match i with
+  | ILeaf (LLit _ []) => false
+  | ILeaf _ => true
+  | INot a => ileaves_wf a
+  | IAnd l r | IOr l r | INAnd l r => ileaves_wf l && ileaves_wf r
+  end.
+
 Definition ltok_wf (t : ltok) : bool :=
   t_quoted t || match t_txt t with [] => false | _ => true end.
 
@@ -194,6 +272,18 @@ Definition case_agrees (c : case) : bool :=
       && view_eqb (list_eqb term_eqb)
                   (do l <- lex_case cls qb; literal_view il id (low_fun low) cfg l) impl_b
   | CRound _ input cls impl_toks => toks_agree (lex_case cls input) impl_toks
+  | CLegacy input cls low cfg nilmap user builtin impl _ _ =>
+      match legacy_case cls low cfg nilmap user builtin input, impl with
+      | ROk (a, lv), Ok i => tree_agrees lv a i
+      | RErr, Err => true
+      | _, _ => false
+      end
+  | CAgg input cls low cfg impl =>
+      match agg_case cls low cfg input, impl with
+      | ROk a, Ok b => option_eqb ltoken_eqb a b
+      | RErr, Err => true
+      | _, _ => false
+      end
   end.
 
 (* implementation output satisfies the property (independent of the model's parser) *)
@@ -228,6 +318,28 @@ Definition case_spec_ok (c : case) : bool :=
       | None => negb (has_single impl_a && has_single impl_b)
       end
   | CRound expected _ _ impl_toks => list_eqb ltok_eqb expected impl_toks
+  | CLegacy _ _ _ _ _ _ _ impl oe atoms =>
+      (* the outcome is a query or an error (a panic / hang is reported by the driver itself); a
+         returned query has NOT only at the root and no empty Literal; a generated expression must
+         parse to a query with its denotation (truth table over the generator's atoms) *)
+      match impl with
+      | Ok i => not_only_at_root (ishape i) && ileaves_wf i
+                && match oe with
+                   | None => true
+                   | Some e => match itree_ast atoms i with
+                               | Some t => forallb (fun v => Bool.eqb (eval v t) (den v e))
+                                                   (valuations natoms)
+                               | None => false
+                               end
+                   end
+      | Err => match oe with None => true | Some _ => false end
+      | OutOfFuel => false
+      end
+  | CAgg _ _ _ _ impl =>
+      match impl with
+      | Ok (Some (LLit _ (_ :: _))) | Ok None | Err => true
+      | _ => false
+      end
   end.
 
 Definition diff_indices (l : list case) : list nat := bad_indices (fun c => negb (case_agrees c)) l.
